@@ -862,6 +862,13 @@ func DecodeRequest(p Proto, streaming bool, method string, hdr http.Header, body
 		}
 		r.Encoding, _ = single(hdr, "Grpc-Encoding")
 	}
+	if ce, n := single(hdr, "Content-Encoding"); n > 0 && ce != "identity" {
+		// HTTP's own header speaks of the body as a whole; an enveloped body is
+		// never coded as a whole (compression is per message, announced in the
+		// protocol's own header), and a peer that honours Content-Encoding
+		// cannot read this request
+		return nil, fmt.Errorf("Content-Encoding %q on an enveloped request body, which is not coded as a whole", ce)
+	}
 	envs, end, exact := SplitEnvelopes(body)
 	if !exact {
 		return nil, fmt.Errorf("request body has %d trailing bytes that are not a complete envelope", len(body)-end)
